@@ -46,7 +46,8 @@ def main():
         data = json.load(open(replay))
         return mod.replay(data)
     chk = core.Check(pid, tier, seed)
-    return mod.run(chk)
+    from . import real
+    return real.big_frame(lambda: mod.run(chk))
 
 
 if __name__ == '__main__':
